@@ -255,12 +255,28 @@ func runEq(cs Case, c *vrt.Ctx, data []any, tags []string) {
 	}
 	c.Sample(map[string]any{"recipe": cs.Eq.String(), "Script.String": texts["Script.String"], "Equation.String": texts["Equation.String"]})
 	ref := fixedOnly(cs.Eq)
-	for _, name := range []string{"Script.String", "Equation.String", "Filter.String"} {
+	texts["Filter.String/NewFilter"] = texts["Filter.String"]
+	for _, name := range []string{"Script.String", "Equation.String", "Filter.String", "Filter.String/NewFilter"} {
 		text := texts[name]
 		var s2 *jp.Script
 		var err error
 		var again string
 		switch name {
+		case "Filter.String/NewFilter":
+			// the filter front-end of its own (it does not go through the path parser)
+			var f, fm *jp.Filter
+			if pv, stack := vrt.Catch(func() { f, err = jp.NewFilter(text) }); pv != nil {
+				c.Fail("panic", "jp.NewFilter", fmt.Sprintf("%v at %s; text %q", pv, stack, text), tags...)
+				continue
+			}
+			pvm, _ := vrt.Catch(func() { fm = jp.MustNewFilter(text) })
+			if (err == nil) != (pvm == nil) || (err == nil && fm.String() != f.String()) {
+				c.Fail("parsers-differ", "jp.MustNewFilter", fmt.Sprintf("NewFilter(%q) gives %v %v, MustNewFilter %v (panic %v)", text, f, err, fm, pvm), tags...)
+			}
+			if err == nil {
+				again = f.String()
+				s2 = &f.Script
+			}
 		case "Filter.String":
 			// a filter prints as [?(...)]: parse it as a path fragment
 			var y jp.Expr
